@@ -121,6 +121,9 @@ def check_function(ctx, where, node, label, is_template=False):
                 if isinstance(f, ast.Attribute) and f.attr in ('search', 'match', 'fullmatch', 'finditer', 'findall') and call.args and call.args[0] is n:
                     ctx.violation('R14-regex-on-cut-buffer', where, st, 'the regex runs on the whole input (with a start position): anchors and look-behind see the bytes before the cursor', line, clause='b')
                     continue
+                if (call_name(call) or '') in ('re.search', 're.match', 're.fullmatch', 're.finditer', 're.findall', 're.split', 're.sub') and len(call.args) >= 2 and call.args[1] is n:
+                    ctx.violation('R14-regex-on-cut-buffer', where, st, 'the whole input is scanned from its first byte: which matches are found at and after the cursor depends on the bytes before it (matches do not overlap)', line, clause='b')
+                    continue
                 if isinstance(f, ast.Name) and f.id in ('isinstance', 'type', 'repr', 'id') and isinstance(p, ast.Call):
                     ctx.holds(rule, where, st, 'type inspection only', line, clause='a')
                     continue
@@ -292,9 +295,23 @@ def check(ctx):
             D.check_innermost(ctx, 'R14-entry-offset', d)
     # relative positioning is computed from the reference point (innermost-pkt-pos / cursor),
     # never from the absolute offset alone (C10 rules b, c on Move)
-    from .c10 import check_move, check_sequence_pads
+    from .c10 import check_move, check_sequence_pads, check_loop_generators_uniform
     check_move(ctx)
     check_sequence_pads(ctx)
+    # ... and the generated driver leaves positioning to Move.unpack as the field loop does
+    check_loop_generators_uniform(ctx)
+    # every statement of a generated block that sets the cursor takes it from a field's unpack or
+    # adds a width to it: a text hole in such a statement is arithmetic the rule does not see
+    for t in repo.templates():
+        if t.tree is None:
+            continue
+        for n in ast.walk(t.tree):
+            if isinstance(n, ast.Assign) and any(isinstance(x, ast.Name) and x.id in ('offset', 'next_offset') for tg in n.targets for x in ast.walk(tg)):
+                holes = [x.id for x in ast.walk(n.value) if isinstance(x, ast.Name) and x.id.startswith('__HOLE_')]
+                # (the hole of the struct block's width is a number computed from the struct format: C03 rule)
+                holes = [h for h in holes if h not in ('__HOLE_advance__',)]
+                if holes:
+                    ctx.undecided('R14-child-gets-cursor', t.func, 'template: %s' % stmt_text(n)[:100], 'the new cursor is generated text (%s): cannot see that it is the field\'s own unpack at the current cursor' % ', '.join(holes), t.lineno, clause='d')
     # (c) the cursor never moves backwards: sized reads carry the exact-length guard (a negative
     # size would make later fields re-read bytes before the cursor), C06 rule b
     from . import c06
